@@ -788,7 +788,20 @@ static std::string text_value(Rng &r, const std::string &t, bool bad)
 	return gen_string_value(r, false, 6);
 }
 
+static json gen_api_step_inner(Rng &r, int cl, int ctx, const std::vector<OptRef> &refs, const ApiGen &g);
+
 json gen_api_step(Rng &r, int cl, int ctx, const std::vector<OptRef> &refs, const ApiGen &g)
+{
+	json s = gen_api_step_inner(r, cl, ctx, refs, g);
+	// a third of the calls that have an equivalent second entry point (cfg_setint for cfg_setnint(..., 0), the
+	// by-option removers and annotation setter for the by-name ones) go through that one
+	std::string op = s.value("op", std::string());
+	if ((op == "setint" || op == "setfloat" || op == "setbool" || op == "setstr" || op == "rmnsec" || op == "rmtsec" || op == "setcomment") && r.chance(1, 3))
+		s["alt"] = 1;
+	return s;
+}
+
+static json gen_api_step_inner(Rng &r, int cl, int ctx, const std::vector<OptRef> &refs, const ApiGen &g)
 {
 	json s;
 	s["cl"] = cl;
